@@ -5,6 +5,7 @@ Unknown or malformed ops answer `bad-op` (never defaulted).
 -/
 import MetricsVerif.Driver.C08
 import MetricsVerif.Driver.Prom
+import MetricsVerif.Driver.OnceCell
 
 open MetricsVerif.Driver
 
@@ -19,6 +20,7 @@ def step (st : DState) (line : String) : DState × String :=
     match Prom.handle st.prom args with
     | some (p, o) => ({ st with prom := p }, o)
     | none => (st, "bad-op")
+  | "cell" :: args => (st, (OnceCell.handle args).getD "bad-op")
   | _ => (st, "bad-op")
 
 partial def loop (h : IO.FS.Stream) (out : IO.FS.Stream) (st : DState) : IO Unit := do
